@@ -586,7 +586,10 @@ func (x *Exec) specCall(sc *specScope, n *ECall, hint types.Type) Value {
 		if !ok {
 			unsup("spec: typeis needs a string literal")
 		}
-		T := x.lookupType(lit.Text)
+		T := x.basicType(lit.Text)
+		if T == nil {
+			T = x.lookupType(lit.Text)
+		}
 		if T == nil {
 			unsup("spec: typeis unknown type %s", lit.Text)
 		}
